@@ -424,6 +424,95 @@ def gen_pair(rng, op, flags, sep, tsep, paths, paths2, last_to):
     return frm, _join(sep, list(pt), rng, lead=0.4), pt
 
 
+def _indep(a, b):
+    """neither path is a prefix of the other"""
+    n = min(len(a), len(b))
+    return a[:n] != b[:n]
+
+
+def gen_dependent(rng, op, flags, paths, paths2):
+    """3-4 pairs with dependencies between them: a later pair's destination parent is created (or used) by an earlier
+    pair and then overridden / deleted / moved / merged away / replaced by a middle pair; the same parent path is
+    re-created; a from-node is one that an earlier pair created or moved.  Returns (pairs as component tuples with
+    None for a delete, flags) or None when the tree is too small.  One call must equal the single-pair calls."""
+    tt = op.startswith("tt_")
+    rp = op.endswith("replace")
+    cp = op in ("copy", "tt_copy", "tt_replace")
+    nodes = paths[1:]
+    if len(nodes) < 3:
+        return None
+    fl = list(flags)
+    f1, g, f3 = rng.sample(nodes, 3)
+    if rp:
+        # replacements that feed each other
+        cand = [p for p in paths2 if len(p) > 1]
+        if len(cand) < 2:
+            return None
+        d1 = rng.choice(cand)
+        landed1 = d1[:-1] + (f1[-1],)
+        d3 = rng.choice(cand)
+        kind = rng.choice(["replace_landed", "from_landed", "sibling_of_landed"])
+        if kind == "replace_landed" or tt:
+            pairs = [(f1, d1), (g, landed1), (f3, d3)]                 # the second replaces what the first put there
+        elif kind == "from_landed":
+            pairs = [(f1, d1), (landed1, d3), (f3, d3[:-1] + (f1[-1],))]   # the moved node moves again, then is replaced
+        else:
+            pairs = [(f1, d1), (g, d3), (landed1, d3[:-1] + (g[-1],))]
+        fl[1] = fl[2] = fl[3] = False
+        return pairs, fl
+    # destination parent P = q + [name]: not there yet, created by the first pair
+    base = [q for q in paths2 if tt or all(q[:len(x)] != x for x in (f1, g, f3))] or [paths2[0]]
+    q = rng.choice(base)
+    kinds = ["override", "override_existing"]
+    if not cp:
+        kinds += ["delete", "move", "merge", "delete_existing", "move_existing"]
+    kind = rng.choice(kinds)
+    fl[2] = fl[3] = False
+    other = rng.choice(paths2)
+    if kind == "override":
+        # pair 1 creates q/G, pair 2 puts the real G there (overriding), pair 3 files into q/G again
+        P = q + (g[-1],)
+        pairs = [(f1, P + (f1[-1],)), (g, P), (f3, P + (f3[-1],))]
+        fl[1] = True
+    elif kind == "override_existing":
+        # an existing node D is used as parent, overridden by a same-named node, used again
+        twins = [(a, b) for a in nodes for b in paths2[1:] if a[-1] == b[-1] and (tt or _indep(a, b))]
+        if not twins:
+            P = q + (g[-1],)
+            pairs = [(f1, P + (f1[-1],)), (g, P), (f3, P + (f3[-1],))]
+        else:
+            g2, P = rng.choice(twins)
+            rest = [x for x in nodes if x != g2 and (tt or (_indep(x, P) and _indep(x, g2)))]
+            if len(rest) < 2:
+                return None
+            f1, f3 = rng.sample(rest, 2)
+            pairs = [(f1, P + (f1[-1],)), (g2, P), (f3, P + (f3[-1],))]
+        fl[1] = True
+    elif kind == "delete":
+        P = q + (rng.choice(NEW_NAMES),)
+        pairs = [(f1, P + (f1[-1],)), (P, None), (f3, P + (f3[-1],))]
+    elif kind == "move":
+        # the created parent (with what was filed into it) moves away, then its path is created again
+        P = q + (rng.choice(NEW_NAMES),)
+        pairs = [(f1, P + (f1[-1],)), (P, other + ("p2", P[-1])), (f3, P + (f3[-1],))]
+        if rng.random() < 0.5:
+            pairs.append((other + ("p2", P[-1], f1[-1]), P + (f1[-1],)))      # and a node moved twice
+    elif kind == "merge":
+        # merge_children on the created parent itself (from == to): it dissolves, its path is created again
+        P = q + (rng.choice(NEW_NAMES),)
+        pairs = [(f1, P + (f1[-1],)), (P, P), (f3, P + (f3[-1],))]
+        fl[2], fl[1] = True, False
+    else:
+        # an existing node used as parent by pairs 1 and 3 is deleted / moved in between
+        cand = [d for d in nodes if all(_indep(d, x) for x in (f1, f3)) and d not in (f1, f3)]
+        if not cand:
+            return None
+        P = rng.choice(cand)
+        mid = (P, None) if kind == "delete_existing" else (P, other + ("p2", P[-1]))
+        pairs = [(f1, P + (f1[-1],)), mid, (f3, P + (f3[-1],))]
+    return pairs, fl
+
+
 def flag_combo(idx):
     return [bool((idx >> b) & 1) for b in range(6)]
 
@@ -434,7 +523,7 @@ def light_flags(rng):
     return [rng.random() < 0.25, rng.random() < 0.35, m < 0.3, 0.3 <= m < 0.55, rng.random() < 0.25, rng.random() < 0.35]
 
 
-def gen_case(rng, flags_idx=None, op=None):
+def gen_case(rng, flags_idx=None, op=None, dependent=False):
     op = op or rng.choice(["shift", "shift", "shift", "copy", "copy", "shift_replace", "tt_copy", "tt_replace"])
     stratum = rng.choice(list(NAME_POOLS))
     pool = NAME_POOLS[stratum]
@@ -450,14 +539,24 @@ def gen_case(rng, flags_idx=None, op=None):
     flags = light_flags(rng) if flags_idx is None else flag_combo(flags_idx)
     paths = tree_paths(tree)
     paths2 = tree_paths(tree2) if tt else paths
-    npairs = rng.choice([1, 1, 1, 2, 2, 3])
+    npairs = rng.choice([1, 1, 1, 2, 2, 3, 3, 4])
     frm, to = [], []
     last_to = None
-    for _ in range(npairs):
-        f, t, landed = gen_pair(rng, op, flags, sep, tsep, paths, paths2, last_to if not tt else None)
-        frm.append(f)
-        to.append(t)
-        last_to = landed
+    dep = gen_dependent(rng, op, flags, paths, paths2) if (dependent or rng.random() < 0.16) else None
+    if dep is not None:
+        # pair lists with dependencies between the pairs (full paths, which are also valid partial paths)
+        pairs, flags = dep
+        lead = rng.random() < 0.3
+        for pf, pt in pairs:
+            frm.append((sep if lead else "") + sep.join(pf))
+            to.append(None if pt is None else (sep if rng.random() < 0.3 else "") + sep.join(pt))
+        shape = "dependent"
+    else:
+        for _ in range(npairs):
+            f, t, landed = gen_pair(rng, op, flags, sep, tsep, paths, paths2, last_to if not tt else None)
+            frm.append(f)
+            to.append(t)
+            last_to = landed
     if rng.random() < 0.015:
         to = to[:-1] if len(to) > 1 else to + [to[0]]     # lengths differ
     if rng.random() < 0.008:
@@ -689,7 +788,9 @@ def sample(prop, case, obs):
 def rule(prop):
     return ("random trees (3-9 nodes; shapes wide/deep/mixed/path/star/hub; names distinct / repeated across branches / "
             "suffix-related a,xa,ab,b,bc / special characters; root name sometimes repeated below; int and mutable list "
-            "attributes) x the five public functions x 0-3 (from,to) pairs (full and partial from-paths, "
+            "attributes) x the five public functions x 0-4 (from,to) pairs (about 12 % of the cases are 3-4 pair lists with "
+            "dependencies: a destination parent created or used by an earlier pair is overridden / deleted / moved / merged "
+            "away / replaced by a middle pair and its path is used again; from-nodes created or moved by earlier pairs) (full and partial from-paths, "
             "new / existing / same / nested / deleted destinations, None and '' to-paths, a few malformed ones) x all 64 "
             "flag combinations (round-robin in quick, full product per scenario in thorough) x separators / \\ - . | and, in about 30 % of the "
             "draws each, -> :: => // -|- (plus a name pool whose names start/end with such characters: K3), rarely the empty "
